@@ -203,8 +203,10 @@ def _unregister(S, spec):
     tree = memzk.Tree()
     zk = memzk.Client(tree, 101)
     what = spec['what']
-    states = ['absent', 'mine', 'theirs']
-    st = states[S.choice('node_state', 3)]
+    # 'theirs_longer_name': registered by a host whose name extends this
+    # host's name (host-a0 vs host-a)
+    states = ['absent', 'mine', 'theirs', 'theirs_longer_name']
+    st = states[S.choice('node_state', 4)]
     manifest = {'name': INST, 'endpoints': DATA['endpoints'],
                 'identity_group': 'g', 'identity': 0}
     ep = presence.EndpointPresence(zk, manifest, hostname='host-a',
@@ -224,7 +226,8 @@ def _unregister(S, spec):
                 ('/scheduled/' + INST in tree.nodes) == (place != 'here'),
                 {'placement': place})
         return
-    host = {'mine': 'host-a', 'theirs': 'host-b'}.get(st)
+    host = {'mine': 'host-a', 'theirs': 'host-b',
+            'theirs_longer_name': 'host-a0'}.get(st)
     path = {'running': PATHS[0], 'endpoints': PATHS[1],
             'identity': PATHS[2]}[what]
     if st != 'absent':
@@ -236,7 +239,7 @@ def _unregister(S, spec):
     getattr(ep, 'unregister_' + what)()
     S.reach('unregistered')
     S.check('C17:unregister_removed_node_of_other_host',
-            (path in tree.nodes) == (st == 'theirs'),
+            (path in tree.nodes) == (st in ('theirs', 'theirs_longer_name')),
             {'state': st, 'exists_after': path in tree.nodes})
 
 
